@@ -15,6 +15,8 @@ structure DState where
   /-- indices whose spawn returned a cell -/
   shown : List Nat := []
   logSeen : Nat := 0
+  /-- the index parked between its name insert and its pid insert -/
+  win : Option Nat := none
   -- what the implementation itself said so far (for the clauses)
   implNames : String := "-"
   implSpawned : List String := []          -- indices whose constructor reached the pid table (res ok / start)
@@ -48,7 +50,11 @@ def apply (st : DState) (ws : List String) : DState × String :=
   match ws with
   | ["case", _] => ({ s := {} }, "unit")
   | [kind, i, nm] =>
-    if kind == "spawn" || kind == "spawnfail" then
+    if kind == "wina" then
+      let i := i.toNat?.getD 0
+      let (s1, going) := construct st.s i (parseName nm)
+      if going then ({ st with s := s1, win := some i }, "win") else ({ st with s := s1 }, "dup")
+    else if kind == "spawn" || kind == "spawnfail" then
       let i := i.toNat?.getD 0
       let (s1, going) := construct st.s i (parseName nm)
       if !going then ({ st with s := s1 }, "dup")
@@ -66,6 +72,14 @@ def apply (st : DState) (ws : List String) : DState × String :=
       let (s1, going) := construct st.s i name
       if !going then ({ st with s := s1 }, "dup")
       else ({ st with s := runOps s1 ([.regPidFail i] ++ (if name.isSome then [.rollback i] else [])) }, "pid")
+  | ["winb", i] =>
+    let i := i.toNat?.getD 0
+    if st.win == some i then
+      ({ st with s := runOps st.s [.regPid i, .publish i 1, .publish i 2], shown := st.shown ++ [i], win := none }, "ok")
+    else (st, "skip")
+  | ["winc", i] =>
+    let i := i.toNat?.getD 0
+    if st.shown.contains i && alive st.s i then ({ st with s := runOps st.s (exitOps i) }, "unit") else (st, "unit")
   | ["mon", i] =>
     let i := i.toNat?.getD 0
     let (s1, _) := construct st.s i none
@@ -95,7 +109,7 @@ def observe (st : DState) (res : String) : String :=
   let s := st.s
   let names := (List.range 4).filterMap (fun n => (s.names n).map (fun a => s!"{n}:{a}"))
   let pids := (Reg2.allPids s).map toString
-  let sts := st.shown.map (fun i => s!"{i}:{(s.act i).status}")
+  let sts := ((st.shown.toArray.qsort (· < ·)).toList).map (fun i => s!"{i}:{(s.act i).status}")
   let evs := byListener (s.log.drop st.logSeen)
   let ev := evs.map (fun e => s!"{e.1}{if e.2.1 then "S" else "T"}{e.2.2}")
   s!"res={res} | names={join names} pids={join pids} st={join sts} ev={join ev}"
@@ -117,16 +131,19 @@ def parseEv (w : String) : Option (String × Bool × String) :=
 def oracle (st : DState) (ws : List String) (impl : String) : List String × DState :=
   let res := field impl "res"
   let names := field impl "names"
-  let isCons := match ws with | k :: _ => k == "spawn" || k == "spawnfail" || k == "collide" | _ => false
+  let isCons := match ws with | k :: _ => k == "spawn" || k == "spawnfail" || k == "collide" || k == "wina" | _ => false
   let idx := (ws.drop 1).headD "?"
-  let spawned := if isCons && (res == "ok" || res == "start") || ws.head? == some "mon" then st.implSpawned ++ [idx] else st.implSpawned
+  let spawned := if isCons && (res == "ok" || res == "start") || ws.head? == some "mon" || (ws.head? == some "winb" && res == "ok")
+                 then st.implSpawned ++ [idx] else st.implSpawned
   let stsI := (items (field impl "st")).filterMap (fun w => match splitOnChar w ':' with | [i, v] => some (i, v.toNat?.getD 0) | _ => none)
   let newEvs := (items (field impl "ev")).filterMap parseEv
   let allEvs := st.implEvs ++ newEvs
   let c1 := if isCons && (res == "dup" || res == "pid") && names != st.implNames
             then ["C10.failed-registration-left-a-name"] else []
+  -- (the cell parked inside its constructor has its name in the table but has not been handed to anybody)
+  let inWin := match st.win with | some i => toString i | none => "none"
   let c2 := if (items names).all (fun w => match splitOnChar w ':' with
-                | [_, i] => !i.endsWith "!" && (stsI.any (fun p => p.1 == i && p.2 < 6))
+                | [_, i] => !i.endsWith "!" && (i == inWin || stsI.any (fun p => p.1 == i && p.2 < 6))
                 | _ => false) then [] else ["C10.where-is-returns-stopped-or-foreign-actor"]
   let pidsI := field impl "pids"
   let expect := join ((stsI.filter (fun p => p.2 < 5)).map (·.1))
